@@ -695,7 +695,8 @@ class ArgumentParser(ParserDeprecations, ActionsContainer, ArgumentLinking, argp
         )
 
         try:
-            cfg_base = self._parse_defaults_and_environ(defaults, env) if defaults or env else None
+            use_env = env or (env is None and self._default_env)
+            cfg_base = self._parse_defaults_and_environ(defaults, env) if defaults or use_env else None
             prev_cfg = previous_config.get()
             if prev_cfg is None:
                 prev_cfg = cfg_base  # like parse_object: values are adapted knowing the ones they are merged into
